@@ -51,6 +51,9 @@ func TestC03(t *testing.T) {
 		}
 	}
 	for i := 0; i < r.Pick(12, 400); i++ {
+		cases = append(cases, mon.CaseSpec{Name: "sendtimeout", Spec: c03Spec{Mode: "sendtimeout", NOps: i}})
+	}
+	for i := 0; i < r.Pick(12, 400); i++ {
 		cases = append(cases, mon.CaseSpec{Name: "openctx", Spec: c03Spec{Mode: "openctx", NOps: i}})
 	}
 	r.Run(cases, func(c *mon.Case) {
@@ -62,6 +65,8 @@ func TestC03(t *testing.T) {
 			c03Parked(c, sp)
 		case "openctx":
 			c03OpenCtx(c, sp)
+		case "sendtimeout":
+			c03SendTimeout(c, sp)
 		default:
 			c03Conc(c, sp)
 		}
